@@ -725,6 +725,11 @@ def search_one(chk, env, f, rnd, n_interp, which, stats, exhaustive=False):
     return text
 
 
+# symbols that cvc5 1.0.3 treats as theory functions of its extensions; none is declared by an SMT-LIB 2.6 theory
+CVC5_EXTENSION_SYMBOLS = {"^", "exp", "sin", "cos", "tan", "csc", "sec", "cot", "arcsin", "arccos", "arctan", "arccsc", "arcsec",
+                          "arccot", "sqrt", "pi", "iand", "pow2"}
+
+
 def solver_opinion(text):
     """{solver: first error line or None} from the installed binaries (parse / sort check only)."""
     import re
@@ -741,6 +746,13 @@ def solver_opinion(text):
             # not an SMT-LIB objection, so it is not counted
             if line and name == "cvc5" and "expected a value" in o:
                 line = None
+            # cvc5 reserves some symbols of its OWN extensions (`^` for exponentiation, ...): a user symbol with
+            # such a name "is shadowing a theory function symbol" for cvc5 although no SMT-LIB theory declares it;
+            # that is cvc5's restriction, not an SMT-LIB objection
+            if line and name == "cvc5" and "shadowing a theory function symbol" in o:
+                m = re.search(r"Symbol `([^']*)' is shadowing", o)
+                if m and m.group(1) in CVC5_EXTENSION_SYMBOLS:
+                    line = None
             out[name] = line
         except Exception as ex:
             out[name] = "failed to run: %r" % (ex,)
